@@ -1,1 +1,196 @@
-/-! # C05 — property theorems (stub) -/
+import Okane.Lemmas.C05Round
+/-!
+# C05 — documented syntax is read; formatting preserves meaning and is idempotent
+
+Model: `Okane.Parse` (ledger parser over the winnow combinators of `Okane.Comb`), `Okane.Unparse` (printer of
+`display.rs` / `format.rs`, well-formedness predicate `wfEntry`, meaning normalisation `canonEntry`).
+
+* full-strength statements: `C05_entry_full`, `C05_image_full`, `C05_roundtrip_full`, `C05_idempotent_full`,
+  `C05_eof_full` (kept visible as `def … : Prop`);
+* what the current code violates, proved from concrete witnesses: `not_C05_image_full`, `not_C05_roundtrip_full`,
+  `not_C05_idempotent_full` (known findings F27 / F28: Unicode white space that the parser does not treat as blank),
+  `not_C05_eof_full` (an account followed by one blank at end of file — outside the documented grammar);
+* proved: the entry loop and `format` compose (`C05_format_parse`, `C05_roundtrip_partial`, `C05_idempotent_partial`:
+  for every ledger whose entries round-trip individually, any display-width function), the per-construct round trip
+  for the directives `include`, `apply tag`, `end apply tag`, top-level comments (`C05_entry_partial`) and for
+  tag-word / key-value metadata lines (`C05_metadata_partial`), hence `C05_roundtrip_directives`.
+-/
+namespace Okane.C05
+open Okane Okane.Comb Okane.Parse Okane.Unparse
+
+/-! ## full-strength statements -/
+
+/-- every well-formed entry is read back from its printed form (followed by the empty line `format` writes) -/
+def C05_entry_full : Prop := ∀ (w : List Char → Nat) (e : Entry), wfEntry e = true → EntryRT w e
+
+/-- what the parser returns is printable: its meaning-normal form satisfies `wfEntry` -/
+def C05_image_full : Prop :=
+  ∀ (t : List Char) (es : List Entry), parseEntries t = .ok es → ∀ e ∈ es, wfEntry (canonEntry e) = true
+
+/-- for every text that parses, the formatted text parses to the same entries (up to `canonEntry`: grouping style
+of numbers without thousands) -/
+def C05_roundtrip_full (w : List Char → Nat) : Prop :=
+  ∀ (t : List Char) (es : List Entry), parseEntries t = .ok es →
+    parseEntries (formatEntries w es) = .ok (es.map canonEntry)
+
+/-- formatting formatted text returns it unchanged -/
+def C05_idempotent_full (w : List Char → Nat) : Prop :=
+  ∀ (t f : List Char), format w t = .ok f → format w f = .ok f
+
+/-- a final line ended by end of file is read like one ended by a new-line -/
+def C05_eof_full : Prop :=
+  ∀ (t : List Char), t.getLast? ≠ some '\n' → t.getLast? ≠ some '\r' → parseEntries t = parseEntries (t ++ ['\n'])
+
+/-! ## the entry loop and `format` (all entry kinds, any width function) -/
+
+/-- parsing what `format` writes for entries that round-trip one by one gives those entries back -/
+theorem C05_format_parse (w : List Char → Nat) (es : List Entry) (h : ∀ e ∈ es, EntryRT w e) :
+    parseEntries (formatEntries w es) = .ok es :=
+  parseEntries_format w es h
+
+theorem C05_roundtrip_partial (w : List Char → Nat) (t : List Char) (es : List Entry)
+    (hp : parseEntries t = .ok es) (hrt : ∀ e ∈ es, EntryRT w e) :
+    ∃ f, format w t = .ok f ∧ parseEntries f = .ok es :=
+  ⟨formatEntries w es, by simp [format, hp, Outcome.map'], parseEntries_format w es hrt⟩
+
+theorem C05_idempotent_partial (w : List Char → Nat) (t : List Char) (es : List Entry)
+    (hp : parseEntries t = .ok es) (hrt : ∀ e ∈ es, EntryRT w e) :
+    ∃ f, format w t = .ok f ∧ format w f = .ok f :=
+  ⟨formatEntries w es, by simp [format, hp, Outcome.map'],
+    by simp [format, parseEntries_format w es hrt, Outcome.map']⟩
+
+/-! ## per construct -/
+
+/-- the directives whose round trip is proved -/
+def isDirective : Entry → Bool
+  | .comment _ => true
+  | .applyTag _ _ => true
+  | .endApplyTag => true
+  | .include _ => true
+  | _ => false
+
+/-- `C05_entry` for `include`, `apply tag`, `end apply tag` and top-level comments -/
+theorem C05_entry_partial (w : List Char → Nat) (e : Entry) (hwf : wfEntry e = true) (hd : isDirective e = true) :
+    EntryRT w e := by
+  cases e with
+  | txn t => simp [isDirective] at hd
+  | comment s => exact entryRT_comment w s (by simpa [wfEntry] using hwf)
+  | applyTag k v =>
+    simp [wfEntry] at hwf
+    exact entryRT_applyTag w k v hwf.1 (by intro x hx; subst hx; simpa using hwf.2)
+  | endApplyTag => exact entryRT_endApplyTag w
+  | «include» p => exact entryRT_include w p (by simpa [wfEntry] using hwf)
+  | account n ds => simp [isDirective] at hd
+  | commodity n ds => simp [isDirective] at hd
+
+/-- tag-word and key-value metadata lines (`    ; :a:b:`, `    ; key: value`, `    ; key:: expr`) are read back -/
+theorem C05_metadata_partial (m : Metadata) (hm : wfMetadata m = true) (hnc : ∀ s, m ≠ .comment s) (rest : List Char) :
+    preceded space1 lineMetadata (printMetaLine m ++ rest) = .ok m rest :=
+  metaLine_rt m hm hnc rest
+
+/-- round trip and idempotence for ledgers made of the proved directives -/
+theorem C05_roundtrip_directives (w : List Char → Nat) (t : List Char) (es : List Entry)
+    (hp : parseEntries t = .ok es) (hwf : ∀ e ∈ es, wfEntry e = true) (hd : ∀ e ∈ es, isDirective e = true) :
+    ∃ f, format w t = .ok f ∧ parseEntries f = .ok es ∧ format w f = .ok f := by
+  have hrt : ∀ e ∈ es, EntryRT w e := fun e he => C05_entry_partial w e (hwf e he) (hd e he)
+  obtain ⟨f, h1, h2⟩ := C05_roundtrip_partial w t es hp hrt
+  obtain ⟨f', h1', h3⟩ := C05_idempotent_partial w t es hp hrt
+  rw [h1] at h1'
+  cases h1'
+  exact ⟨f, h1, h2, h3⟩
+
+/-! ## non-vacuity -/
+
+def exEntries : List Entry :=
+  [.comment " top\n second line\n", .include "sub/*.ledger", .applyTag "trip" (some (.text "2024 Tōkyō")),
+   .applyTag "k" none, .endApplyTag]
+
+example : ∀ e ∈ exEntries, wfEntry e = true ∧ isDirective e = true := by decide
+example : parseEntries (formatEntries widthStd exEntries) = .ok exEntries :=
+  C05_format_parse widthStd exEntries (fun e he =>
+    C05_entry_partial widthStd e ((by decide : ∀ e ∈ exEntries, wfEntry e = true) e he)
+      ((by decide : ∀ e ∈ exEntries, isDirective e = true) e he))
+example : wfMetadata (.wordTags ["a", "b"]) = true ∧ wfMetadata (.keyValue "k" (.text "v w")) = true := by decide
+example : preceded space1 lineMetadata (printMetaLine (.keyValue "k" (.expr "1 + 2")) ++ ['x']) =
+    .ok (.keyValue "k" (.expr "1 + 2")) ['x'] :=
+  C05_metadata_partial _ (by decide) (by intro s h; cases h) _
+
+/-! ## what the current code violates (negation witnesses, evaluated by the kernel) -/
+
+/-- F28: `2024/01/01 x⏎ <U+3000>⏎    B  1 USD⏎` — a posting whose account is only Unicode white space -/
+def witF28 : List Char :=
+  ['2','0','2','4','/','0','1','/','0','1',' ','x','\n',' ','　','\n',' ',' ',' ',' ','B',' ',' ','1',' ','U','S','D','\n']
+/-- F27: `2024/01/01 x ; :a:b:<U+00A0>⏎` — tag words followed by white space that is not a blank -/
+def witF27 : List Char :=
+  ['2','0','2','4','/','0','1','/','0','1',' ','x',' ',';',' ',':','a',':','b',':',' ','\n']
+/-- `2024/01/01 x⏎ A ` — an account followed by one blank at end of file -/
+def witEof : List Char := ['2','0','2','4','/','0','1','/','0','1',' ','x','\n',' ','A',' ']
+
+def imageOk (t : List Char) : Bool :=
+  match parseEntries t with
+  | .ok es => es.all fun e => wfEntry (canonEntry e)
+  | _ => true
+
+theorem not_C05_image_full : ¬ C05_image_full := by
+  intro h
+  have hw : imageOk witF28 = false := by decide +kernel
+  unfold imageOk at hw
+  split at hw
+  · rename_i es hp
+    have := h witF28 es hp
+    simp [List.all_eq_true] at hw
+    obtain ⟨e, he, hne⟩ := hw
+    exact absurd (this e he) (by simp [hne])
+  · simp at hw
+
+/-- the same for F27 (a comment that is exactly tag words) -/
+example : imageOk witF27 = false := by decide +kernel
+
+def reparses (w : List Char → Nat) (t : List Char) : Bool :=
+  match parseEntries t with
+  | .ok es => (parseEntries (formatEntries w es)).isOk
+  | _ => true
+
+theorem not_C05_roundtrip_full : ¬ C05_roundtrip_full widthStd := by
+  intro h
+  have hw : reparses widthStd witF28 = false := by decide +kernel
+  unfold reparses at hw
+  split at hw
+  · rename_i es hp
+    rw [h witF28 es hp] at hw
+    simp [Outcome.isOk] at hw
+  · simp at hw
+
+def reformats (w : List Char → Nat) (t : List Char) : Bool :=
+  match format w t with
+  | .ok f => (format w f).isOk
+  | _ => true
+
+theorem not_C05_idempotent_full : ¬ C05_idempotent_full widthStd := by
+  intro h
+  have hw : reformats widthStd witF28 = false := by decide +kernel
+  unfold reformats at hw
+  split at hw
+  · rename_i f hf
+    rw [h witF28 f hf] at hw
+    simp [Outcome.isOk] at hw
+  · simp at hw
+
+theorem not_C05_eof_full : ¬ C05_eof_full := by
+  intro h
+  have h1 : (parseEntries witEof).isOk = false := by decide +kernel
+  have h2 : (parseEntries (witEof ++ ['\n'])).isOk = true := by decide +kernel
+  have := h witEof (by decide) (by decide)
+  rw [this, h2] at h1
+  exact absurd h1 (by simp)
+
+/-- the formatted text of a whole transaction is read back by the model (evaluation; the general theorem for
+transactions is `C05_entry_full`, which rests on the correspondence stream) -/
+def exLedger : List Char :=
+  "2024/01/05=2024/01/06 * (c1) Päyee ; k: v\n  ; :t1:t2:\n  Assets:現金 A  -1,234.50 JPY {2 USD} [2024/01/01] (n) @@ (3 EUR * -2) = 0\n  Expenses:食費\n".toList
+
+example : (match parseEntries exLedger with
+    | .ok es => parseEntries (formatEntries widthCjk es) == .ok (es.map canonEntry) && es.all (fun e => wfEntry (canonEntry e))
+    | _ => false) = true := by decide +kernel
+
+end Okane.C05
